@@ -370,7 +370,6 @@ def rtE : Ext where
 /-- a compiler whose pattern test is the runtime's (the law `hpat` holds) -/
 def rtC : CExt where
   prefixMatch := rtE.patMatch
-  fltOfStr _ := none
   strptimeOk _ _ := false
 
 /-- `struct Base { id Int64; note String? }`,
